@@ -176,6 +176,7 @@ pub fn main_hist(a: &Args) -> i32 {
     let mut viols: Vec<Value> = Vec::new();
     let mut seen_keys: std::collections::BTreeMap<(String, String), usize> = Default::default();
     let mut digests: Vec<(u64, u64)> = Vec::with_capacity(hists.len());
+    let mut flagged: Vec<bool> = Vec::with_capacity(hists.len());
     let mut distinct_api: std::collections::HashSet<u64> = Default::default();
     let mut crashed = 0u64;
     for (i, o) in outcomes.iter().enumerate() {
@@ -194,6 +195,7 @@ pub fn main_hist(a: &Args) -> i32 {
                 steps += v["steps"].as_u64().unwrap();
                 let da = v["da"].as_u64().unwrap();
                 digests.push((da, v["de"].as_u64().unwrap()));
+                flagged.push(!v["v"].as_array().unwrap().is_empty());
                 distinct_api.insert(da);
                 for x in v["v"].as_array().unwrap() {
                     add(x["prop"].as_str().unwrap(), x["key"].as_str().unwrap(), x["step"].as_u64().unwrap(), x["what"].as_str().unwrap().to_string(), &mut viols);
@@ -201,16 +203,19 @@ pub fn main_hist(a: &Args) -> i32 {
             }
             Outcome::Signal(sig, prog) => {
                 crashed += 1;
+                flagged.push(true);
                 digests.push((0, 0));
                 add("*", &format!("process-killed-signal-{sig}:{}", phase_key(*prog)), *prog, format!("the process died with signal {sig} while executing this history ({})", phase(*prog)), &mut viols);
             }
             Outcome::Exit(code, prog) => {
                 crashed += 1;
+                flagged.push(true);
                 digests.push((0, 0));
                 add("*", &format!("process-exit-{code}:{}", phase_key(*prog)), *prog, format!("the process exited with status {code} while executing this history ({})", phase(*prog)), &mut viols);
             }
             Outcome::Timeout(prog) => {
                 crashed += 1;
+                flagged.push(true);
                 digests.push((0, 0));
                 add("*", &format!("hang:{}", phase_key(*prog)), *prog, format!("no progress for 30 s while executing this history ({})", phase(*prog)), &mut viols);
             }
@@ -222,7 +227,7 @@ pub fn main_hist(a: &Args) -> i32 {
     if let Some(f) = &a.digests {
         let mut s = String::new();
         for (i, d) in digests.iter().enumerate() {
-            s.push_str(&format!("{} {:016x}\n", hists[i].iter().map(op_to_str).collect::<Vec<_>>().join(","), d.0));
+            s.push_str(&format!("{} {:016x} {}\n", hists[i].iter().map(op_to_str).collect::<Vec<_>>().join(","), d.0, flagged[i] as u8));
         }
         std::fs::write(f, s).unwrap();
     }
